@@ -51,8 +51,10 @@ MccPairs == JsonDeserialize(IOEnv.C17_MCC)
 
 ---------------------------------------------------------------------------
 \* ---- the class table (read from allsorts; constrained by ModifiedCcc.tla) ------
-MccFn == [c \in {MccPairs[i][1] : i \in DOMAIN MccPairs} |->
-            LET i == CHOOSE i \in DOMAIN MccPairs : MccPairs[i][1] = c IN MccPairs[i][2]]
+\* (TLCEval: the function is tabulated once instead of being a lazy lambda that searches the
+\* 934 pairs at every application)
+MccFn == TLCEval([c \in {MccPairs[i][1] : i \in DOMAIN MccPairs} |->
+            LET i == CHOOSE i \in DOMAIN MccPairs : MccPairs[i][1] = c IN MccPairs[i][2]])
 MarkSet   == DOMAIN MccFn
 Cls(c)    == IF c \in MarkSet THEN MccFn[c] ELSE 0
 IsMark(c) == Cls(c) # 0
@@ -61,6 +63,13 @@ Rng(s)    == {s[i] : i \in DOMAIN s}
 Count(s, c) == Cardinality({i \in DOMAIN s : s[i] = c})
 BagOf(s)    == [c \in Rng(s) |-> Count(s, c)]
 Insert(s, i, c) == SubSeq(s, 1, i - 1) \o <<c>> \o SubSeq(s, i, Len(s))     \* c becomes s'[i]
+
+\* Glyph mapping (Font::map_glyphs, the observation point the property names) consumes variation
+\* selectors after preprocessing; which of them it understands is not C17's business, so the
+\* texts are compared with every character of the Unicode property Variation_Selector
+\* (PropList.txt: U+180B..180D, U+180F, U+FE00..FE0F, U+E0100..E01EF) deleted on both sides.
+VarSel == (\h180B .. \h180D) \cup {\h180F} \cup (\hFE00 .. \hFE0F) \cup (\hE0100 .. \hE01EF)
+NoVS(s) == SelectSeq(s, LAMBDA c : c \notin VarSel)
 
 ---------------------------------------------------------------------------
 \* ---- dispatch (scripts/mod.rs, ScriptType::from) ----------------------------
